@@ -1,5 +1,6 @@
 pub mod agent;
 pub mod c05;
+pub mod c06;
 pub mod c08;
 pub mod c09;
 pub mod c10;
@@ -14,7 +15,7 @@ pub mod c19;
 use crate::core::PropSpec;
 
 pub fn all() -> Vec<&'static PropSpec> {
-    vec![&agent::C01, &agent::C02, &agent::C03, &agent::C04, &c05::C05, &c08::C08, &c09::C09, &c10::C10, &c11::C11, &c12::C12, &c13::C13, &c14::C14, &agent::C15, &c16::C16, &c11::C17, &c05::C18, &c19::C19]
+    vec![&agent::C01, &agent::C02, &agent::C03, &agent::C04, &c05::C05, &c06::C06, &c06::C07, &c08::C08, &c09::C09, &c10::C10, &c11::C11, &c12::C12, &c13::C13, &c14::C14, &agent::C15, &c16::C16, &c11::C17, &c05::C18, &c19::C19]
 }
 
 pub fn lookup(id: &str) -> Option<&'static PropSpec> {
